@@ -128,6 +128,16 @@ theorem C19_transport (nsPort nsPort' : Nat) (s : Text) (u : Uri) (order : List 
     parse Guards.on nsPort' (channel (render u order)) = .ok u := by
   rw [hch]; exact C19_roundtrip nsPort nsPort' s u order h ho
 
+/-- **C19_state_transport.**  A URI object travels as its state tuple (serializers.py: `"state": obj.__getstate__()`,
+    rebuilt by `__setstate__`).  Through any channel that delivers the state tuple unchanged, the rebuilt URI is
+    the one sent: equal, `==` true, and hashed alike (both unhashable for PYROMETA). -/
+theorem C19_state_transport (h : State → Nat) (channel : State → State) (u v : Uri)
+    (hch : channel (getstate u) = getstate u) (hv : getstate v = channel (getstate u)) :
+    v = u ∧ eqUri v u = true ∧ hashUri h v = hashUri h u := by
+  have e : v = u := getstate_injective v u (by rw [hv, hch])
+  subst e
+  exact ⟨rfl, (C19_eq_hash h v v).1.2 rfl, rfl⟩
+
 /-- the uris a history assigns are valid (each came out of the parser / of `resolve`) -/
 def OpsValid : List ProxyOp → Prop
   | [] => True
@@ -234,7 +244,8 @@ def proxyProbeOK (nsPort : Nat) (t : Uri × List ProxyOp × List (Except Err Uri
     with this kind of error), prints and reports `location` exactly as `parse`/`render`/`renderLoc` do with the
     default NS_PORT; `==` and hashability on the probe pairs are the model's; equal probe URIs hashed alike;
     `Proxy.__getstate__()[0]` is the text `str(uri)`, and along the probed proxy histories (state pair,
-    `copy.copy`, uri replaced) the delivered uris are the model's `proxyRun`. -/
+    `copy.copy`, uri replaced) the delivered uris are the model's `proxyRun`; a URI object sent through each
+    installed serializer arrives equal (tags in the codec's list type where the codec has no set type). -/
 theorem C19_gen_facts :
     Pyro.Gen.C19.uriRegex = "(?P<protocol>[Pp][Yy][Rr][Oo][a-zA-Z]*):(?P<object>\\S+?)(@(?P<location>.+))?$" ∧
     Pyro.Gen.C19.uriRegexFlags = 32 ∧
@@ -248,6 +259,7 @@ theorem C19_gen_facts :
     Pyro.Gen.C19.hashProbes.all (hashProbeOK Pyro.Gen.C19.nsPortDefault) = true ∧
     Pyro.Gen.C19.equalHashesAgree = true ∧
     Pyro.Gen.C19.proxyStateIsText = true ∧
+    Pyro.Gen.C19.uriStateTravels = true ∧
     3 ≤ Pyro.Gen.C19.proxyProbes.length ∧
     Pyro.Gen.C19.proxyProbes.all (proxyProbeOK Pyro.Gen.C19.nsPortDefault) = true := by
   decide
